@@ -108,6 +108,7 @@ type chainT struct {
 	blockNo uint64
 	txID    uint64
 	freeBridgers []sdk.AccAddress // bridger accounts oracles of this chain held earlier
+	noModel bool // a history built through the real handlers only (no op lines): monitors only
 }
 
 func (c *chainT) addrStr(b []byte) string { return types.ExternalAddrToStr(c.name, b) }
@@ -1817,6 +1818,14 @@ func (h *hCtx) genesisRoundTrip(c *chainT) {
 		}
 	}
 	h.out.Stats.Extra["genesis_round_trip_confirms_kept_of"] = fmt.Sprintf("%d/%d", kept, len(before))
+	// correspondence: the model's round trip (regenerated export lists + import comparison) keeps the same number per kind
+	cnt := map[string]int{}
+	for _, e := range after {
+		cnt[e.key.kind]++
+	}
+	if !c.noModel {
+		h.out.Emit("genesis "+c.name, fmt.Sprintf("oset=%d batch=%d bcall=%d of=%d", cnt["oset"], cnt["batch"], cnt["bcall"], len(before)))
+	}
 	for _, b := range before {
 		found := false
 		for _, e := range after {
@@ -1840,7 +1849,7 @@ func (h *hCtx) genesisBridgerReuse() {
 	name := "eth"
 	cctx, _ := s.Ctx.CacheContext()
 	h.ctx = cctx
-	c := &chainT{name: name, k: k, ledger: map[string]*objT{}, accRec: map[string]types.Oracle{}, gid: k.GetGravityID(cctx)}
+	c := &chainT{name: name, k: k, ledger: map[string]*objT{}, accRec: map[string]types.Oracle{}, gid: k.GetGravityID(cctx), noModel: true}
 	keyA, _ := crypto.GenerateKey()
 	a := &oracleT{id: 0, addr: helpers.GenAccAddress(), bridger: helpers.GenAccAddress(), key: keyA}
 	a.ext = c.addrStr(crypto.PubkeyToAddress(keyA.PublicKey).Bytes())
